@@ -2,7 +2,7 @@
    hypotheses of the theorems in Props/, evaluated by vm_compute. *)
 From Coq Require Import ZArith List Bool String Lia.
 Require Import QzSched.Gen.Params QzSched.SchedModel QzSched.Registry QzSched.ListQueue QzSched.Triggers
-               QzSched.LtsDefs QzSched.ApiProofs QzSched.ListQueueProofs QzSched.C08Proofs QzSched.C04Proofs QzSched.ExampleDefs.
+               QzSched.LtsDefs QzSched.ApiProofs QzSched.ListQueueProofs QzSched.C08Proofs QzSched.C04Proofs QzSched.RunOnceProofs QzSched.ExampleDefs.
 Import ListNotations.
 Open Scope string_scope.
 Open Scope Z_scope.
@@ -89,3 +89,8 @@ Proof. eexists. split; [vm_compute; reflexivity|]. vm_compute. auto. Qed.
 Example ex_runonce_late : exists s, xrun xinit [LApi (OpSchedule (jd kb false false) (Some 1%nat)); LAdv 60; LFetch 0; LAdv 50; LFetch 0] = Some s /\
   xq s = [] /\ exec_ids (xlog s) = [] /\ In (EvMisfire 0 kb 105) (xlog s).
 Proof. eexists. split; [vm_compute; reflexivity|]. vm_compute. auto. Qed.
+
+Example ex_runonce_count : ts0 1%nat = TOnce 5 false /\ exists s,
+  xrun xinit [LSchedPre 7 (jd kb false false) (Some 1%nat); LSchedCommit 7; LAdv 6; LFetch 0; LExec 0; LAdv 50; LFetch 0] = Some s /\
+  vcount 1%nat (xlog s) = 1%nat /\ exec_ids (xlog s) = [0%nat].
+Proof. split; [reflexivity|]. eexists. split; [vm_compute; reflexivity|]. vm_compute. auto. Qed.
